@@ -167,4 +167,13 @@ def list (acc : Int → Bool) (sh : Shard) (mode : ListMode) (early : Bool) (fie
 def typeRepoSet (acc : Int → Bool) (sh : Shard) (mode : ListMode) (early : Bool) : List String :=
   (list acc sh mode early .repos).repos.filterMap fun i => sh.repos[i]?.map (·.name)
 
+/-- the sharded searcher (search/shards.go) hands the same context to every shard and only copies, splits by
+    repository or unions what the shards return: its result is made of the per-shard results -/
+def searchShards (acc : Int → Bool) (shs : List (Shard × Bool)) (maxRepo : Nat) : List SearchOut :=
+  shs.map fun p => search acc p.1 p.2 maxRepo
+
+/-- `typeRepoSearcher.eval` over all shards: the `RepoSet` built from `Streamer.List(ctx, child)` -/
+def typeRepoSetAll (acc : Int → Bool) (shs : List (Shard × ListMode × Bool)) : List String :=
+  shs.flatMap fun p => typeRepoSet acc p.1 p.2.1 p.2.2
+
 end ZoektModel.C23
